@@ -58,6 +58,7 @@ func runC25(c *Ctx) {
 		"C25.formula: computed = refNTP.Add(scale(pts - refPTS, 1e9, ClockRate)). C25.writers: module-wide stores to refNTP/refPTS only in Estimate. C25.users: every Estimator literal sets ClockRate. " +
 		"NOT decided: arithmetic in package time and in the scale helper (C24); that the caller's clock rate matches the PTS unit."
 	c.Assume = []string{"time.Time.After/Before/Add/Round behave as documented", "multiplyAndDivide is exact (C24)"}
+	c25FinalPTS(c, p)
 
 	est := c.fn(p, "internal/ntpestimator", "Estimator", "Estimate")
 	if est == nil {
